@@ -328,7 +328,8 @@ def _r1_defaults(ctx: Ctx, mod, cname, init, armfn, fname) -> str:
         raise Undecided(f"{q}: expected one attribute holding {sd}.<...boundary_faces>(), found {cands}")
     bf_attr, src = cands[0]
     # the default's index: self.<bf>, or a local / direct call that is the very value stored in self.<bf>
-    on_bf = u(fidx) == f"self.{bf_attr}" or (not isinstance(fidx, ast.Slice) and grid_call(fidx) == src)
+    on_bf = u(fidx) == f"self.{bf_attr}" or (not isinstance(fidx, ast.Slice) and (
+        grid_call(fidx) == src or u(inline_locals(init, fidx, stop=ps)) == f"self.{bf_attr}"))
     if not on_bf and not (isinstance(fidx, ast.Slice) or isinstance(fidx, (ast.Attribute, ast.Call))):
         raise Undecided(f"{q}: index of the Neumann default `{u(ds)}` not recognised")
     ctx.check("R1", on_bf, mod, q, ds,
